@@ -207,6 +207,15 @@ def real_tokens(text):
     return [(t.typ, t.value) for t in declast.tokenize(text)]
 
 
+def rendering_tokens(text):
+    """Tokens of a rendering Shroud produced for generated code.  The C++ rendering of C99 'T complex' is the typemap's
+    std::complex<T> (same meaning, see shroud_base); 'complex' is a type-specifier word for the tokenizer, so the
+    reference reader gets the C99 spelling."""
+    import re
+    text = re.sub(r"std\s*::\s*complex\s*<\s*(float|double|long double)\s*>", r"\1 complex", text)
+    return real_tokens(text)
+
+
 def exc_site(ex):
     """innermost frame inside shroud/: (function, source line text)"""
     tb = traceback.extract_tb(ex.__traceback__)
@@ -309,7 +318,7 @@ def check_accept(pairs, node, ctxname, concrete_reparse=True):
             unwrap = decl.declarator is not None and decl.declarator.func is None
             if unwrap and not decl.array:
                 text2 = decl.gen_arg_as_cxx(name=nm, params=None, with_template_args=True)
-                r3 = refdecl.read_declaration(real_tokens(text2), sym)
+                r3 = refdecl.read_declaration(rendering_tokens(text2), sym)
                 if norm_type(r3.type) != ret or r3.name != nm:
                     out["c09"] = "(b) gen_arg_as_cxx(params=None) rendering %r denotes %r, expected %r" % (
                         text2, jsonable(norm_type(r3.type)), jsonable(ret))
@@ -318,7 +327,7 @@ def check_accept(pairs, node, ctxname, concrete_reparse=True):
             if p.declarator is None or p.init is not None:
                 continue
             tx = p.gen_arg_as_cxx(with_template_args=True)
-            r4 = refdecl.read_declaration(real_tokens(tx), sym)
+            r4 = refdecl.read_declaration(rendering_tokens(tx), sym)
             if norm_type(r4.type) != rp["type"] or r4.name != rp["name"]:
                 out["c09"] = "(b) gen_arg_as_cxx() rendering %r of parameter denotes %r, expected %r" % (
                     tx, jsonable(norm_type(r4.type)), jsonable(rp["type"]))
@@ -328,7 +337,7 @@ def check_accept(pairs, node, ctxname, concrete_reparse=True):
                                 for q in (p.params or []))
             if tm.c_type and tm.c_type == tm.cxx_type and not p.template_arguments and nested_native:
                 tc = p.gen_arg_as_c()
-                r5 = refdecl.read_declaration(real_tokens(tc), sym)
+                r5 = refdecl.read_declaration(rendering_tokens(tc), sym)
                 exp = as_c_type(rp["type"], lambda n: n)
                 if norm_type(r5.type) != exp or r5.name != rp["name"]:
                     out["c09"] = "(b) gen_arg_as_c() rendering %r of parameter denotes %r, expected %r" % (
